@@ -393,6 +393,30 @@ theorem wrapper_wellformed (f : Func) (wf : WfFunc f) (inj : List Name)
   obtain ⟨wf2, _, _, _, _⟩ := expectAll_spec wf1 exp h2
   exact ⟨hn, wf2.len, wf2.kwd, wf2.kwdNodup⟩
 
+/-- `wraps` applied `n` times on top of each other (a stack of decorators) -/
+def wrapsN (f : Func) (o : Opts) : Nat → Except Err Func
+  | 0 => .ok f
+  | n + 1 =>
+    match wrapsN f o n with
+    | .ok w => updateWrapper w [] [] o
+    | .error e => .error e
+
+/-- a stack of `n` plain `wraps` decorators still has the innermost function's own signature,
+    annotations, kind and metadata, whatever `n` -/
+theorem stacked_wraps (f : Func) (wf : WfFunc f) (o : Opts) (n : Nat) :
+    ∃ w, wrapsN f o n = .ok w ∧ WfFunc w ∧ sigOf w = sigOf f ∧ w.ann = f.ann ∧ w.retAnn = f.retAnn ∧
+      w.isAsync = f.isAsync ∧ w.name = f.name ∧ w.doc = f.doc ∧ w.module = f.module := by
+  induction n with
+  | zero => exact ⟨f, rfl, wf, rfl, rfl, rfl, rfl, rfl, rfl, rfl⟩
+  | succ n ih =>
+    obtain ⟨w, hw, wfw, hs, ha, hr, hy, hn, hd, hm⟩ := ih
+    obtain ⟨w', hw', hs', ha', hr', hy'⟩ := sig_preserved w wfw o (w.ident + 1)
+    obtain ⟨hn', hd', hm', _⟩ := metadata_preserved w o (w.ident + 1) w' hw'
+    refine ⟨w', ?_, wrapper_wellformed w wfw [] [] o _ w' hw', hs'.trans hs, ha'.trans ha, hr'.trans hr,
+      hy'.trans hy, hn'.trans hn, hd'.trans hd, hm'.trans hm⟩
+    simp only [wrapsN, hw]
+    exact hw'
+
 /-! ## any history of `FunctionBuilder.remove_arg` / `add_arg` calls -/
 
 /-- whatever sequence of `remove_arg` / `add_arg(…[, kwonly=True])` calls is made on
@@ -454,6 +478,7 @@ def errOf (r : Except Err Func) : Option Err :=
 example : (buildHistory exF [.remove 2, .add 6 none false, .add 8 (some 42) true, .remove 5]).toOption.map
     (fun w => sigOf w) = some ⟨[(1, none), (6, none), (3, some 13)], some 7, [(4, none), (8, some 42)], some 9⟩ := by
   decide
+example : (wrapsN exF {} 3).toOption.map (fun w => (sigOf w, w.wrapped)) = some (sigOf exF, some 3) := by decide
 example : errOf (updateWrapper exF [] [(7, none)]) = some .syntaxError := by decide
 example : errOf (updateWrapper { exF with varkw := none } [8] []) = some .missingArgument := by decide
 
